@@ -101,37 +101,38 @@ func checkC17(r *core.Run) {
 
 	// ---- T-payload
 	if f := r.Func("T-payload", "did/keeper.Keeper.verifyBindingProof"); f != nil {
-		res := r.Resolver(f)
 		n := 0
-		for _, b := range f.Blocks {
-			for _, ins := range b.Instrs {
-				c, ok := ins.(*ssa.Call)
-				if !ok {
-					continue
-				}
-				name, _ := term.CalleeName(r.P, &c.Call)
-				idx := -1
-				switch {
-				case strings.HasSuffix(name, ".VerifySignature"):
-					idx = 1
-				case strings.HasSuffix(name, "crypto.SigToPub"), strings.HasSuffix(name, "crypto.Ecrecover"), strings.HasSuffix(name, "crypto.VerifySignature"):
-					idx = 0
-				}
-				if idx < 0 {
-					continue
-				}
-				n++
-				t := res.Of(c)
-				if idx >= len(t.Args) {
-					continue
-				}
-				mt := t.Args[idx].String()
-				for _, fld := range []string{"Did", "Timestamp"} {
-					key := core.Key("T-payload", r.KeyName(f), name, "depends-on-proof."+fld)
-					if strings.Contains(mt, "#3."+fld) {
-						r.Discharge("T-payload", key, r.P.Pos(c.Pos()), "signed payload depends on proof."+fld)
-					} else {
-						r.Violate("T-payload", key, r.P.Pos(c.Pos()), fmt.Sprintf("the bytes whose signature is checked (%s) do not depend on proof.%s: any message ever signed by the account is accepted as a proof for any DID / at any time", shorten(mt), fld))
+		for _, fr := range frames(r, f) {
+			for _, b := range fr.Fn.Blocks {
+				for _, ins := range b.Instrs {
+					c, ok := ins.(*ssa.Call)
+					if !ok {
+						continue
+					}
+					name, _ := term.CalleeName(r.P, &c.Call)
+					idx := -1
+					switch {
+					case strings.HasSuffix(name, ".VerifySignature"):
+						idx = 1
+					case strings.HasSuffix(name, "crypto.SigToPub"), strings.HasSuffix(name, "crypto.Ecrecover"), strings.HasSuffix(name, "crypto.VerifySignature"):
+						idx = 0
+					}
+					if idx < 0 {
+						continue
+					}
+					n++
+					ats := deepCall{Fr: fr, Call: c}.ArgTerms(r)
+					if idx >= len(ats) {
+						continue
+					}
+					mt := ats[idx]
+					for _, fld := range []string{"Did", "Timestamp"} {
+						key := core.Key("T-payload", r.KeyName(f), name, "depends-on-proof."+fld)
+						if strings.Contains(mt, "#3."+fld) {
+							r.Discharge("T-payload", key, r.P.Pos(c.Pos()), "signed payload depends on proof."+fld)
+						} else {
+							r.Violate("T-payload", key, r.P.Pos(c.Pos()), fmt.Sprintf("the bytes whose signature is checked (%s) do not depend on proof.%s: any message ever signed by the account is accepted as a proof for any DID / at any time", shorten(mt), fld))
+						}
 					}
 				}
 			}
